@@ -463,14 +463,11 @@ class FnEval:
             self.tys[hid] = ty
         av = self.apply_name(name, av, line, ty or self.tys.get(hid))
         av = self.apply_byte_name(name, av)
-        conflicts = []
+        # a plain variable (or an if/match value) may legitimately hold an old-side value on one path and a
+        # new-side value on another: the side degrades to unknown, which still fails closed at an A1-A3 sink.
+        # A5 is reserved for containers / map keys (writer-reader agreement).
         old = self.env.get(hid)
-        new = join(old, av, conflicts)
-        sided = None
-        if old is not None and av is not None and old != av and (sides_of(old) or sides_of(av)):
-            sided = "%s with %s" % (show(old), show(av))
-        self.conflict_check(conflicts, "variable `%s`" % name, line, sided=sided)
-        self.env[hid] = new
+        self.env[hid] = _unx(join(old, av, None))
 
     def apply_name(self, name, av, line, ty=None):
         """A binding whose name declares a side: supply the side if the value has none; a definite
@@ -502,8 +499,6 @@ class FnEval:
         """Contract value a parameter/field declares through its name and type."""
         side = name_side(name)
         if side is None:
-            if name == "len" and (ty or "").replace("&mut ", "").replace("&", "").strip() == "usize":
-                return S(LEN, "B")
             return None
         t = ty or ""
         tn = t.replace("&mut ", "").replace("&", "").strip()
@@ -793,10 +788,7 @@ class FnEval:
             return a
         if _ty_never(e["t"]):
             return b if b is not None else ANY
-        conflicts = []
-        r = join(a, b, conflicts)
-        self.conflict_check(conflicts, "if/else value", e["line"])
-        return r
+        return _unx(join(a, b, None))
 
     def ev_letx(self, e):
         init = self.ev(e["init"])
@@ -817,9 +809,7 @@ class FnEval:
                 self.ev(arm["guard"])
             v = self.ev(arm["body"])
             if not _ty_never(arm["body"]):
-                conflicts = []
-                out = join(out, v, conflicts)
-                self.conflict_check(conflicts, "match arms", e["line"])
+                out = _unx(join(out, v, None))
         if e.get("ty") in ("()", "!"):
             return T()
         return out if out is not None else ANY
@@ -1026,8 +1016,9 @@ class FnEval:
             if isinstance(bv, tuple) and bv and bv[0] == "C":
                 conflicts = []
                 nv = C(join(bv[1], v, conflicts))
-                self.conflict_check(conflicts, "container element", line)
-                self.store(lhs["base"], nv, line)
+                sided = ("%s with %s" % (show(bv[1]), show(v))) if (bv[1] is not None and v is not None and (sides_of(bv[1]) or sides_of(v))) else None
+                self.conflict_check(conflicts, "container element", line, sided=sided)
+                self.store(lhs["base"], _unx(nv), line)
             return
 
     def field_store(self, adt, name, v, line):
@@ -1557,7 +1548,7 @@ class FnEval:
             return _reframe(r, caller_frame)
         if self.depth >= ctx.max_depth or (g.path, self.depth) in ctx.active:
             return ANY
-        key = (g.path, repr(allv))
+        key = (g.path, repr(allv), bool(self.report))
         if key in ctx.ret_memo:
             return ctx.ret_memo[key]
         ctx.active.add((g.path, self.depth))
@@ -1626,6 +1617,10 @@ class FnEval:
                 return I(join(el, oe))
             if name == "enumerate":
                 return I(T(S(LEN), el))
+            if name in ("next_if", "next_if_eq"):
+                if rest and name == "next_if":
+                    self.apply_closure(rest[0], [el])
+                return O(el)
             if name in ("take_while", "skip_while", "filter", "inspect"):
                 if rest:
                     self.apply_closure(rest[0], [el])
@@ -1761,13 +1756,16 @@ class FnEval:
             el = a0[1] if a0[1] is not None else ANY
             if name == "len":
                 return S(LEN, path_side(recv) if recv is not None else None)
-            if name in ("push", "push_back"):
+            if name in ("push", "push_back") or (name == "insert" and len(rest) == 2):
+                newel = rest[0] if name != "insert" else rest[1]
                 if recv is not None and rest:
-                    self.store(recv, C(rest[0]), line)
-                return T()
-            if name == "insert" and len(rest) == 2:
-                if recv is not None:
-                    self.store(recv, C(rest[1]), line)
+                    conflicts = []
+                    join(a0[1], newel, conflicts)
+                    sided = ("%s with %s" % (show(a0[1]), show(newel))) if (a0[1] is not None and newel is not None and (sides_of(a0[1]) or sides_of(newel))) else None
+                    # only structured elements (tuples / ops) carry a writer-reader contract; a bare scalar list may mix sides
+                    if isinstance(newel, tuple) and newel and newel[0] in ("T", "A"):
+                        self.conflict_check(conflicts, "element pushed to `%s`" % _place_name(recv), line, sided=sided)
+                    self.store(recv, C(newel), line)
                 return T()
             if name in ("get", "get_mut", "first", "last", "first_mut", "last_mut", "pop", "split_first"):
                 if name == "split_first":
@@ -1893,7 +1891,7 @@ def path_side(e, depth=0):
     return None
 
 
-ITER_METHODS = {"next", "rev", "zip", "map", "filter", "filter_map", "take_while", "count", "enumerate", "collect", "sum",
+ITER_METHODS = {"next_if", "next_if_eq", "next", "rev", "zip", "map", "filter", "filter_map", "take_while", "count", "enumerate", "collect", "sum",
                 "scan", "chain", "flat_map", "step_by", "peekable", "peek", "skip", "take", "copied", "cloned", "all", "any",
                 "min", "max", "last", "nth", "for_each", "fold", "by_ref", "position", "find"}
 
@@ -2143,9 +2141,41 @@ def analyse(prog, opts=None):
             FnEval(ctx, fn, report=False).run()
         ctx.ret_memo = {}
     for fn in fns:
+        if not fn.public and _has_unseeded_relevant_param(ctx, fn) and _is_called_locally(ctx, fn):
+            # private helper whose parameters carry no sort of their own: its sinks are checked in the context of
+            # every call site (context-sensitive evaluation), not in isolation
+            ctx.count("helpers_checked_in_context")
+            continue
         FnEval(ctx, fn, report=True).run()
     _cache[k] = ctx
     return ctx
+
+
+def _has_unseeded_relevant_param(ctx, fn):
+    if fn.impl and fn.impl.get("trait") == HOOK and fn.name in HOOK_SIG:
+        return False
+    ev = FnEval(ctx, fn, report=False)
+    for p in fn.hir["params"]:
+        nm = p["pat"].get("name")
+        if nm == "self":
+            continue
+        if ev.seed_for(nm, p["ty"]) is None and (fn.spath, nm) not in PARAM_SIG and p["ty"].replace("&mut ", "").replace("&", "").strip() == "usize":
+            return True
+    return False
+
+
+def _is_called_locally(ctx, fn):
+    cache = getattr(ctx, "_called", None)
+    if cache is None:
+        cache = set()
+        for f in ctx.prog.fn_list:
+            if f.mir:
+                for bb, t in f.mir.calls():
+                    c = f.mir.callee(t)
+                    if c and c.get("local"):
+                        cache.add(c.get("resolved") or c["path"])
+        ctx._called = cache
+    return fn.path in cache
 
 
 RULE_TEXT = {
